@@ -10,7 +10,7 @@ corrupted and *nested* frames of the filtered-out protocols.
 
 from checks import common
 from sim import core, link, sched, wire as W
-from sim.observe import embed_offsets, run_reader
+from sim.observe import run_reader
 from sim.runner import UnitResult
 
 PROPERTY = "C11"
@@ -128,17 +128,22 @@ def _run(scn, res=None):
     # the same bytes, or lying inside a (larger) raw delivered there.  The second alternative keeps
     # the clause sound for an implementation that re-synchronises inside a frame its parser
     # rejected - something only a parsing reader can know - while a frame that parsing=False
-    # loses altogether is still reported.  (Wires whose raws do not embed are C07's business.)
-    off_t = embed_offsets(wire, raws_t)
-    off_f = embed_offsets(wire, raws_f)
-    if off_t is not None and off_f is not None:
-        spans_f = [(o, o + len(r)) for o, r in zip(off_f, raws_f)]
-        for o, r in zip(off_t, raws_t):
-            if not any(a <= o and o + len(r) <= b for a, b in spans_f):
-                return (
-                    "parsing_off_changes_framing",
-                    f"frame {r.hex()[:60]} at offset {o} is delivered with parsing on but no raw delivered with parsing off covers it (parsing off: {[x.hex()[:30] for x in raws_f][:6]})",
-                )
+    # loses altogether is still reported.  The match is made on CONTENT, in order (each on-raw must
+    # be a substring of an off-raw at or after the previous match), never on wire offsets: with
+    # nested or repeated frames the same bytes occur at several offsets of the wire.
+    j, p = 0, 0
+    for r in raws_t:
+        while j < len(raws_f):
+            i = raws_f[j].find(r, p)
+            if i >= 0:
+                p = i + len(r)
+                break
+            j, p = j + 1, 0
+        else:
+            return (
+                "parsing_off_changes_framing",
+                f"frame {r.hex()[:60]} is delivered with parsing on but (in order) no raw delivered with parsing off contains it (parsing off: {[x.hex()[:40] for x in raws_f][:6]})",
+            )
     if not rejected and raws_t != raws_f:
         return ("parsing_off_changes_framing_on_accepted_wire", f"no frame was rejected, yet raws differ: on={len(raws_t)} off={len(raws_f)}")
     return None
